@@ -131,7 +131,7 @@ class Gen:
                 # gradients are compared: keep the (quarter-valued) entries off the kinks of the clamp
                 lo, hi = rng.choice([(0.625, 1.625), (0.625, 1.625), (0.375, None), (None, 1.375)])
             if o.get("monotone") and lo is None:
-                lo = 0.25
+                lo = 0.375 if o.get("strict") else 0.25
             return P.Parameter.from_unary(P.ClampParameter(shape, vmin=lo, vmax=hi), t)
         if k == "sigmoid":
             t = tensor(dy_array(rng, shape, -6, 6, 4))
